@@ -15,6 +15,11 @@ Rules on the -O1 -fno-inline IR (every CNL function still a function):
     signed if Rep is.  A narrower or differently-signed working type makes some Rep value print as a different number
     (wrong sign for the upper half of an unsigned 64-bit Rep), so breaking R5 breaks the property; R5 holding does not
     establish it.
+ R6 (first sentence, structural part) the digit generator to_chars_natural peels digits with value / base and
+    value % base; for a wrapper whose own division rounds (nearest, tie_to_pos_inf, neg_inf) that quotient must be the
+    truncating one: no division operator of a non-native rounding mode is reachable from any to_chars_natural
+    instantiation the integer entry points reach.  (With a rounding quotient the remainders leave [0, base) and
+    characters outside the digit alphabet are written.)
 Not decided: digit generation, truncation direction, exponent after rescaling (loops over run-time digits).
 """
 import re, os
@@ -50,6 +55,17 @@ R5_SRC = "".join('extern "C" void r5_%d(scaled_integer<%s, power<%d>> const& v, 
                  for i, (rep, d, sg) in enumerate(REPS))
 # positive control for R5: a hand-written formatter that narrows a 64-bit unsigned value into the signed working type
 R5_SRC += 'extern "C" void r5_control(std::uint64_t const& v, cnl::_impl::descaled<std::int64_t, 10>* o) { *o = cnl::_impl::descale<std::int64_t, 10>(v, power<-3>{}); }\n'
+
+
+R6_REPS = ["cnl::rounding_integer<int, cnl::nearest_rounding_tag>", "cnl::rounding_integer<long long, cnl::tie_to_pos_inf_rounding_tag>",
+           "cnl::rounding_integer<int, cnl::neg_inf_rounding_tag>", "cnl::rounding_integer<std::uint16_t, cnl::nearest_rounding_tag>",
+           "cnl::static_integer<20>", "cnl::static_integer<40, cnl::tie_to_pos_inf_rounding_tag>", "cnl::static_integer<100>",
+           "cnl::elastic_integer<20>", "cnl::overflow_integer<int, cnl::saturated_overflow_tag>", "int", "cnl::int128_t"]
+R6_SRC = "".join('extern "C" void r6_%d(%s const& v, char* f, char* l, std::to_chars_result* o) { *o = cnl::to_chars(f, l, v); }\n' % (i, rep) for i, rep in enumerate(R6_REPS))
+R6_SRC += 'extern "C" void r6_static(cnl::static_integer<20> const& v, char* o) { auto r = cnl::to_chars_static(v); o[0] = r.chars[0]; }\n'
+# positive control: a division that does round must be recognised by the forbidden-callee pattern
+R6_SRC += 'extern "C" void r6_control(cnl::rounding_integer<int, cnl::nearest_rounding_tag> const& v, cnl::rounding_integer<int, cnl::nearest_rounding_tag>* o) { *o = v / 10; }\n'
+R6_ROUNDING = re.compile(r"divide_op.*(nearest_rounding_tag|tie_to_pos_inf_rounding_tag|neg_inf_rounding_tag)|(nearest_rounding_tag|tie_to_pos_inf_rounding_tag|neg_inf_rounding_tag).*divide_op")
 
 
 def _split_targs(s):
@@ -95,7 +111,7 @@ FORBIDDEN = [(r"^_ZNSolsE[a-z]$", "std::ostream::operator<<(arithmetic)"), (r"^_
 def run(tier, seed, work):
     r = report.Run(PROP, tier, seed, "other")
     src = os.path.join(work, "t.cpp")
-    open(src, "w").write(SRC + R5_SRC)
+    open(src, "w").write(SRC + R5_SRC + R6_SRC)
     out = os.path.join(work, "t.ll")
     rc, so, se, cmd = tc.clang_ll(src, out, "o1ni")
     if rc != 0:
@@ -143,6 +159,23 @@ def run(tier, seed, work):
         n_r5 += 1
         if why:
             r.violation("R5/" + rep, "cnl::to_chars(scaled_integer<%s, ...>): %s" % (rep, why), {"rep": rep, "descale": dem[ds[0]], "caller": dem[tcf[0]][:200]})
+    # R6
+    n_r6 = 0
+    ctl_hit = [x for x in reach("r6_control") if R6_ROUNDING.search(dem.get(x, ""))] if "r6_control" in mod.functions else []
+    if not ctl_hit:
+        r.broke("R6 control: the rounding division of rounding_integer<int, nearest> / 10 was not recognised")
+    for e in sorted(n for n in mod.functions if n.startswith("r6_") and n != "r6_control"):
+        R = reach(e)
+        nat = [x for x in R if re.match(r"^(char\* )?cnl::_impl::to_chars_natural<", dem.get(x, ""))]
+        if not nat:
+            r.broke("R6: %s reaches no to_chars_natural instantiation" % e)
+            continue
+        for x in nat:
+            n_r6 += 1
+            bad = [y for y in reach(x) if R6_ROUNDING.search(dem.get(y, ""))]
+            if bad:
+                r.violation("R6/" + e, "%s: the digit generator %s divides with a rounding (non-truncating) operator: %s" % (e, dem[x][:160], dem[bad[0]][:200]),
+                            {"entry": e, "generator": dem[x], "rounding_division": [dem[y] for y in bad[:4]]})
     entries = [n for n in mod.functions if n.startswith("e_")]
     ok_entries, samples = 0, []
     for e in sorted(entries):
@@ -218,11 +251,12 @@ def run(tier, seed, work):
     common.floor_check(r, "entry points established", ok_entries, 9)
     common.floor_check(r, "to_chars_static instantiations inspected", n_static, 5)
     common.floor_check(r, "R5 working-significand instances judged", n_r5, len(REPS))
+    common.floor_check(r, "R6 digit-generator instances inspected", n_r6, len(R6_REPS))
     r.coverage = {
         "explanation": "Decided: the last sentence (the fixed-capacity entry points format through cnl::to_chars on the same value: reachability, forbidden-formatter and argument/derivation rules on -O1 -fno-inline IR) and one structural necessary condition of the sign/magnitude clause (R5: the working significand type of every to_chars<Rep> instantiation represents all of Rep). Digit generation, truncation direction and exponents are not decided.",
-        "evaluations": len(entries) + n_static + n_r5, "distinct_nontrivial": ok_entries + n_static + n_r5,
+        "evaluations": len(entries) + n_static + n_r5 + n_r6, "distinct_nontrivial": ok_entries + n_static + n_r5 + n_r6,
         "rule": "non-trivial = entry point for which R1 and R2 hold, or to_chars_static instantiation for which R3 was evaluated",
-        "r5_instances": n_r5, "entry_points": len(entries) - 1, "entry_points_ok": ok_entries, "to_chars_static_instances": n_static,
+        "r5_instances": n_r5, "r6_generators": n_r6, "entry_points": len(entries) - 1, "entry_points_ok": ok_entries, "to_chars_static_instances": n_static,
         "samples": samples[:6], "exhaustive": False,
     }
     return r.finish()
